@@ -425,7 +425,7 @@ theorem find?_unique {α : Type} (p : α → Bool) (l : List α) (e : α) (he : 
     by_cases hx : p x = true
     · have : x = e := hu x (by simp) hx
       subst this
-      simp [List.find?_cons, hx]
+      simp [hx]
     · have hne : x ≠ e := fun h => hx (h ▸ hp)
       have he' : e ∈ l := by
         rcases List.mem_cons.mp he with h | h
